@@ -17,6 +17,13 @@ theorem methodFrameOk (p : Pool) (bsms : Option (List Bsm)) (a : SMethodAttr) (h
     simp [SMethodAttr.raw, be16_length, *]; omega
   | signature nc cp sig => exact ⟨ha.1, by simp [SMethodAttr.raw, be16_length]⟩
   | unknown nc name b => exact ⟨ha.1, ha.2.2.2⟩
+  | annotations nc visible as => exact ⟨ha.1, ha.2.2.2.2⟩
+  | annotationDefault nc e => exact ⟨ha.1, ha.2.2.2⟩
+  | methodParameters nc ps =>
+    refine ⟨ha.1, ?_⟩
+    have := length_flatMap_const (fun q : Nat × Option JStr × Nat => be16 q.1 ++ be16 q.2.2) 4 ps (fun _ _ => by simp [be16_length])
+    have := ha.2.2.1
+    simp [SMethodAttr.raw, be8, *]; omega
 
 theorem readMethod_enc (p : Pool) (bsms : Option (List Bsm)) (m : MethodLayout) (hm : m.Legal p bsms) (mf : MethodFacts)
     (hfacts : m.facts = some mf) (r : Bytes) :
@@ -191,6 +198,26 @@ theorem readClassAttr_enc (p : Pool) (a : SClassAttr) (ha : a.Legal p) (st : Cla
           n1, n2, n3, n4, n5, n6, n7, n8, n9, n10, n11, n12, n13, n14, n15, n16, n17, n18, if_false, if_true, hrec, Bool.false_eq_true,
           hvec, hc', insertIfEmpty_none, pure_eq],
         hf, rfl, hrec⟩
+  | annotations nc visible as =>
+    obtain ⟨h1, h2, h3, h4, h5⟩ := ha
+    have hread := readAnnotations_enc p as h3 h4 r
+    cases visible with
+    | true =>
+      obtain ⟨n1, n2, n3, n4, n5, n6, n7⟩ := classNe_RVA
+      simp only [SClassAttr.apply, if_true, Option.some.injEq] at h; subst h
+      simp only [if_true] at h2
+      exact ⟨{ st with facts := { st.facts with rva := st.facts.rva ++ as.map SAnno.fact } },
+        by simp only [readClassAttr, SClassAttr.raw, attrFrame, List.append_assoc, u16_be16 _ h1, ok_bind, h2, u32_be32 _ h5,
+          n1, n2, n3, n4, n5, n6, n7, if_false, if_true, hread, pure_eq],
+        by simp [hf], hb, hrec⟩
+    | false =>
+      obtain ⟨n1, n2, n3, n4, n5, n6, n7, n8⟩ := classNe_RIA
+      simp only [SClassAttr.apply, Bool.false_eq_true, if_false, Option.some.injEq] at h; subst h
+      simp only [Bool.false_eq_true, if_false] at h2
+      exact ⟨{ st with facts := { st.facts with ria := st.facts.ria ++ as.map SAnno.fact } },
+        by simp only [readClassAttr, SClassAttr.raw, attrFrame, List.append_assoc, u16_be16 _ h1, ok_bind, h2, u32_be32 _ h5,
+          n1, n2, n3, n4, n5, n6, n7, n8, if_false, if_true, hread, pure_eq],
+        by simp [hf], hb, hrec⟩
   | unknown nc name b =>
     obtain ⟨h1, h2, hnot, hlen⟩ := ha
     simp only [classAttrNames, List.mem_cons, List.not_mem_nil, or_false, not_or] at hnot
